@@ -1,10 +1,16 @@
 package regexp2
 
-import "strconv"
+import (
+	"strconv"
+	"unicode"
+)
 
 // Shared harness helpers (overlay file; see /verif/DESIGN.md section 3).
 
 var verifRE *Regexp
+var verifRE2 *Regexp
+var verifSpec *specNode
+var verifNG int
 
 func verifText(n int) []rune {
 	t := make([]rune, n)
@@ -12,6 +18,26 @@ func verifText(n int) []rune {
 		t[i] = verifRune("t" + strconv.Itoa(i))
 	}
 	return t
+}
+
+// verifSumCaseSimple: r is caseless or a member of a plain upper/lower pair (the
+// domain on which case-insensitive matching has one agreed meaning).
+func verifSumCaseSimple(r rune) bool {
+	f := unicode.SimpleFold(r)
+	if f == r {
+		return true
+	}
+	if unicode.SimpleFold(f) != r {
+		return false
+	}
+	lo, up := unicode.ToLower(r), unicode.ToUpper(r)
+	return (lo == r && up == f) || (up == r && lo == f)
+}
+
+func verifAssumeCaseSimple(t []rune) {
+	for _, r := range t {
+		verifAssume(verifSumCaseSimple(r))
+	}
 }
 
 // verifSnap flattens a match into ints: [-1] for no match, else
@@ -44,6 +70,165 @@ func verifEqInts(a, b []int) bool {
 	return true
 }
 
+func verifCompile(pattern string, options int, copts string) *Regexp {
+	var co []CompileOption
+	co = append(co, RegexOptions(options))
+	for _, c := range copts {
+		switch c {
+		case 'g':
+			co = append(co, OptionIsCodeGen())
+		case 'b':
+			co = append(co, OptionDisableCharClassASCIIBitmap())
+		case 'o':
+			co = append(co, OptionMaintainCaptureOrder())
+		}
+	}
+	re, err := Compile(pattern, co...)
+	if err != nil {
+		panic("compile: " + err.Error())
+	}
+	return re
+}
+
+// verifNaiveScan runs the compiled program at every position in scan order with
+// no candidate finder, no prefix filter, no minimum-length cut-off, and bumping
+// by exactly one. origin is the \G origin / first position; prevLen is the length
+// of the previous match (-1: none; 0: skip one position first).
+func verifNaiveScan(re *Regexp, rt []rune, origin, prevLen int) (*Match, error) {
+	r := re.getRunner()
+	defer re.putRunner(r)
+	r.timeout = re.MatchTimeout
+	r.ignoreTimeout = true
+	r.debug = false
+	r.Runtextstart = origin
+	r.Runtext = rt
+	r.Runtextend = len(rt)
+	stoppos, bump := len(rt), 1
+	if re.RightToLeft() {
+		stoppos, bump = 0, -1
+	}
+	pos := origin
+	r.Runtextpos = pos
+	r.initMatch(newMatchText(rt))
+	if prevLen == 0 {
+		if pos == stoppos {
+			r.tidyMatch(true)
+			return nil, nil
+		}
+		pos += bump
+	}
+	for {
+		r.Runtextpos = pos
+		if err := executeDefault(r); err != nil {
+			return nil, err
+		}
+		if r.runmatch.matchcount[0] > 0 {
+			return r.tidyMatch(false), nil
+		}
+		r.Runtrackpos = len(r.runtrack)
+		r.Runstackpos = len(r.runstack)
+		r.runcrawlpos = len(r.runcrawl)
+		if pos == stoppos {
+			r.tidyMatch(true)
+			return nil, nil
+		}
+		pos += bump
+	}
+}
+
+// verifAttemptAt runs the program once at position p (no scanning).
+func verifAttemptAt(re *Regexp, rt []rune, origin, p int) (*Match, error) {
+	r := re.getRunner()
+	defer re.putRunner(r)
+	r.timeout = re.MatchTimeout
+	r.ignoreTimeout = true
+	r.debug = false
+	r.Runtextstart = origin
+	r.Runtext = rt
+	r.Runtextend = len(rt)
+	r.Runtextpos = p
+	r.initMatch(newMatchText(rt))
+	if err := executeDefault(r); err != nil {
+		return nil, err
+	}
+	if r.runmatch.matchcount[0] > 0 {
+		return r.tidyMatch(false), nil
+	}
+	r.tidyMatch(true)
+	return nil, nil
+}
+
+func verifStart(n int, rtl bool) int {
+	s := verifConcrete(verifInt("start", 0, n))
+	return s
+}
+
+// ---------------------------------------------------------------- C01 / C15
+
+func VerifSetup_spec() {
+	verifRE = verifCompile(verifParam("pattern"), verifParamInt("options"), verifParam("copts"))
+	verifSpec = verifParseSpec(verifParam("ast"))
+	verifNG = verifParamInt("ngroups")
+}
+
+func VerifCheck_spec() {
+	n := verifParamInt("n")
+	t := verifText(n)
+	if verifParamInt("options")&int(IgnoreCase) != 0 || verifParamInt("anyi") != 0 {
+		verifAssumeCaseSimple(t)
+	}
+	start := verifStart(n, verifRE.RightToLeft())
+	m, err := verifRE.FindRunesMatchStartingAt(t, start)
+	if err != nil {
+		verifFail("error", err.Error())
+	}
+	got := verifSnap(m)
+	want := verifSpecFind(verifSpec, verifNG, t, start, verifRE.RightToLeft())
+	verifNoteInts("engine", got)
+	verifNoteInts("spec", want)
+	if m != nil {
+		verifReach("match")
+	} else {
+		verifReach("nomatch")
+	}
+	verifAssert("engine==spec", verifEqInts(got, want))
+	verifReach("end")
+}
+
+// ---------------------------------------------------------------- C03
+
+func VerifSetup_accel() {
+	verifRE = verifCompile(verifParam("pattern"), verifParamInt("options"), verifParam("copts"))
+}
+
+func VerifCheck_accel() {
+	n := verifParamInt("n")
+	t := verifText(n)
+	start := verifStart(n, verifRE.RightToLeft())
+	m, err := verifRE.FindRunesMatchStartingAt(t, start)
+	if err != nil {
+		verifFail("error", err.Error())
+	}
+	got := verifSnap(m)
+	nm, err := verifNaiveScan(verifRE, t, start, -1)
+	if err != nil {
+		verifFail("error-naive", err.Error())
+	}
+	want := verifSnap(nm)
+	verifNoteInts("find", got)
+	verifNoteInts("naive", want)
+	if m != nil {
+		verifReach("match")
+		if m.RuneIndex != start {
+			verifReach("match-after-skip")
+		}
+	} else {
+		verifReach("nomatch")
+	}
+	verifAssert("find==naive", verifEqInts(got, want))
+	verifReach("end")
+}
+
 func VerifSetup_spike() {
 	verifRE = MustCompile(verifParam("pattern"), RegexOptions(verifParamInt("options")))
 }
@@ -56,4 +241,10 @@ func VerifCheck_spike() {
 	}
 	verifNoteInts("snap", verifSnap(m))
 	verifReach("end")
+}
+
+// vacuity canary: must be reported as a violation (with t0='a', t1='b')
+func VerifCheck_canary() {
+	t := verifText(2)
+	verifAssert("canary", !(t[0] == 'a' && t[1] == 'b'))
 }
